@@ -548,7 +548,7 @@ func handleOne(rq wproto.Req, alone bool) (rp wproto.Rep) {
 		if rq.OptMode {
 			sub, exts = "A", []string{".x"}
 		}
-		if err := gtree.MkdirFromMarkdown(strings.NewReader(rq.PreDoc), gtree.WithTargetDir(filepath.Join(jail, sub)), gtree.WithFileExtensions(exts)); err != nil {
+		if err := gtree.MkdirFromMarkdown(strings.NewReader(rq.PreDoc), gtree.WithTargetDir(filepath.Join(jail, sub)), gtree.WithFileExtensions(exts)); err != nil && !rq.PreLoose {
 			return wproto.Rep{Class: "err", Err: "harness: pre-mkdir: " + err.Error()}
 		}
 	}
